@@ -132,6 +132,8 @@ static Plan gen_io(uint64_t seed, const Op &opts) {
     p.cfg.setu("kseed", mix64(opts.getu("keybase", 7), r.below((uint64_t) opts.geti("nkeys", 2))));
     gen_ctx_cfg(p, r, opts);
     p.cfg.setu("wseed", r.next()).setu("rseed", r.next()).setu("w2seed", r.next());
+    // second key context: the same parameter set with exactly ONE field changed (objects of both contexts share the stream)
+    p.cfg.seti("vary", sp.n > 100 ? 0 : 1 + (int) r.below(6));
     int maxobj = (int) opts.geti("maxobj", 12);
     int m = 1 + (int) r.below((uint64_t) maxobj);
     bool big = opts.geti("big", 1) != 0;
@@ -141,10 +143,23 @@ static Plan gen_io(uint64_t seed, const Op &opts) {
         do kind = (int) r.below(K_NKINDS); while (!big && (kind == K_BKKEY || kind == K_CLOUDKEY || kind == K_SECRETKEY));
         if (sp.n > 100 && (kind == K_BKKEY || kind == K_CLOUDKEY || kind == K_SECRETKEY) && i > 0) kind = K_GBPARAMS;   // one 100 MB object per run
         if (only >= 0) kind = only;
-        Op o; o.kind = "op"; o.set("k", "obj").set("kind", kind_name(kind)).seti("content", (int) r.below(3)).setu("oseed", r.next());
+        Op o; o.kind = "op"; o.set("k", "obj").set("kind", kind_name(kind)).seti("content", (int) r.below(3)).setu("oseed", r.next()).seti("ctx", (int) r.below(2));
         p.ops.push_back(o);
     }
     return p;
+}
+
+static ParamSpec vary_spec(ParamSpec sp, int vary) {
+    switch (vary) {
+        case 1: { int tb = sp.t * sp.basebit; sp.t = sp.t == 8 ? 5 : 8; sp.basebit = sp.basebit == 2 ? 3 : 2; if (sp.t * sp.basebit > 31) { sp.t = 4; sp.basebit = 2; } (void) tb; break; }
+        case 2: sp.n = sp.n == 5 ? 6 : 5; break;
+        case 3: if (sp.l == 2 && sp.Bgbit == 10) { sp.l = 3; } else { sp.l = 2; sp.Bgbit = 10; } break;
+        case 4: sp.a_ks = sp.a_ks == 1e-6 ? 1e-7 : 1e-6; break;
+        case 5: sp.a_bk = sp.a_bk == 1e-9 ? 1e-10 : 1e-9; break;
+        case 6: sp.k = sp.k == 1 ? 2 : 1; break;
+        default: break;
+    }
+    return sp;
 }
 
 struct ImpArgs { const Obj *like; FILE *f; std::istream *is; Obj out; };
@@ -158,6 +173,9 @@ static void exec_io(const Plan &p, RunResult &r) {
     bool anykey = false;
     for (auto &o : p.ops) if (needs_key(kind_by_name(o.gets("kind")))) anykey = true;
     KeyCtx *kc = anykey ? get_key(sp, p.cfg.getu("kseed")) : nullptr;
+    int vary = (int) p.cfg.geti("vary", 0);
+    KeyCtx *kc2 = (anykey && vary) ? get_key(vary_spec(sp, vary), p.cfg.getu("kseed") ^ 0x2222) : kc;
+    if (kc2 != kc) r.probes.add(fmt("two_param_sets_differing_in_field_%d", vary));
     IoCtx cx; make_ctx(cx, p.cfg);
     lib_seed(mix64(p.seed, 0x696f));
     Rng wr(p.cfg.getu("wseed")), rr(p.cfg.getu("rseed")), w2(p.cfg.getu("w2seed"));
@@ -169,7 +187,7 @@ static void exec_io(const Plan &p, RunResult &r) {
         int kind = kind_by_name(o.gets("kind"));
         if (kind < 0) continue;
         Rng orng(o.getu("oseed"));
-        objs.push_back(make_obj(kind, cx, kc, orng, (int) o.geti("content")));
+        objs.push_back(make_obj(kind, cx, o.geti("ctx") ? kc2 : kc, orng, (int) o.geti("content")));
     }
     // 1. export the whole sequence into one stream on transport A, and again on transport B
     WriteLog A, Bl;
@@ -476,6 +494,17 @@ static void exec_iofault(const Plan &p, RunResult &r) {
         r.stats["sweep.bytes"] = (double) full.size();
     } else {
         auto titles = title_ranges(full, text_limit);
+        // offsets of every binary type tag (composite objects have several sections after the text part)
+        std::vector<size_t> tags;
+        if (full.size() >= text_limit + 4 && text_limit < full.size()) tags.push_back(text_limit);
+        if (kind == K_TGSWSAMPLE) { size_t row = 4 + (size_t) (cx.tp->k + 1) * cx.tp->N * 4 + 8; for (int q = 0; q < cx.gp->kpl; q++) tags.push_back(4 + (size_t) q * row); }
+        if (kind == K_BKKEY || kind == K_CLOUDKEY || kind == K_SECRETKEY) {
+            size_t ksbin = 4 + 8 + (size_t) kc->k * kc->N * kc->t * kc->base * (kc->n + 1) * 4;
+            size_t bkbin = 4 + 8 + (size_t) kc->n * kc->kpl * (kc->k + 1) * kc->N * 4;
+            tags.push_back(text_limit + ksbin);                                   // bootstrapping key content
+            if (kind == K_SECRETKEY) { tags.push_back(text_limit + ksbin + bkbin); tags.push_back(text_limit + ksbin + bkbin + 4 + (size_t) kc->n * 4); }   // LWE key, ring key
+        }
+        for (auto &t : tags) if (t + 4 > full.size()) t = text_limit;
         // interesting offsets: section/array boundaries
         std::vector<size_t> bounds = {0, full.size() - 1, text_limit};
         for (size_t q = full.find('\n'); q != std::string::npos && q < text_limit; q = full.find('\n', q + 1)) bounds.push_back(q + 1);
@@ -500,15 +529,15 @@ static void exec_iofault(const Plan &p, RunResult &r) {
                 std::string mod = full;
                 size_t pos; bool ok = false;
                 bool tag = (at & 1) || titles.empty();
-                if (tag && full.size() >= text_limit + 4) { pos = text_limit + (at >> 1) % 4; ok = true; }
+                if (tag && !tags.empty()) { pos = tags[(at >> 3) % tags.size()] + (at >> 1) % 4; ok = true; r.probes.add(fmt("tag_section_%zu", (size_t) ((at >> 3) % tags.size()))); }
                 else if (!titles.empty()) { auto &t = titles[(at >> 1) % titles.size()]; pos = t.first + (at >> 9) % (t.second - t.first); ok = true; }
                 if (!ok) continue;
                 unsigned char x = (unsigned char) mod[pos], y;
                 switch (o.geti("val")) { case 0: y = x ^ 1; break; case 1: y = x ^ 0x80; break; case 2: y = 0; break; case 3: y = '\n'; break; case 4: y = '\r'; break; default: y = (unsigned char) (at >> 24); }
                 if (y == x) y = x ^ 2;
                 mod[pos] = (char) y;
-                r.faults.add(pos >= text_limit ? "F-flip-tag" : "F-flip-title");
-                judge_attempt(r, orig, orig, mod, rc, fmt("F-flip byte %zu (%s) %#x->%#x", pos, pos >= text_limit ? "type tag" : "title", x, y), false, (int) oi);
+                r.faults.add((tag && !tags.empty()) ? "F-flip-tag" : "F-flip-title");
+                judge_attempt(r, orig, orig, mod, rc, fmt("F-flip byte %zu (%s) %#x->%#x", pos, (tag && !tags.empty()) ? "type tag" : "title", x, y), false, (int) oi);
                 fh.u64(pos); fh.u64(y);
             } else if (k == "subst") {
                 // bytes of this object delivered to the importer of another type whose leading title/tag differs
